@@ -4,7 +4,8 @@ wrapper and operand-kind clauses of C01, C02, C07, C08).
 """
 import ast
 from .core import Finding, RuleResult
-from .model import AnalysisError, dotted_name, norm, walk_no_nested
+from .indexenum import enumerate_function
+from .model import AnalysisError, dotted_name, norm, walk_no_nested, must_raise, seq_iteration
 from .effects import flat
 
 ALGO = 'algopy.utpm.algorithms'
@@ -49,6 +50,15 @@ def rule_cmp(ctx):
                     why = 'right operand `%s` is neither a zeroth coefficient nor the raw operand' % right
                 else:
                     ok = True
+                    if isinstance(c.comparators[0], ast.Name):
+                        # a rebinding of the operand before the comparison must select its zeroth coefficient
+                        nm = c.comparators[0].id
+                        for st in walk_no_nested(fi.node):
+                            if isinstance(st, (ast.Assign, ast.AugAssign)) and any(
+                                    isinstance(t, ast.Name) and t.id == nm for t in (st.targets if isinstance(st, ast.Assign) else [st.target])):
+                                if not (isinstance(st, ast.Assign) and _is_zeroth(st.value, nm)):
+                                    ok = False
+                                    why = 'operand `%s` is rebound by `%s`, which is not its zeroth coefficient' % (nm, norm(st))
             if ok:
                 r.ok(construct='%s:%s' % (name, norm(ret)), sample='UTPM.%s: `%s`' % (name, norm(ret)))
             else:
@@ -72,7 +82,7 @@ def rule_cmp(ctx):
             else:
                 r.bad(Finding('C10.cmp', _f(fi), norm(ret), 'Function.%s does not apply operator.%s to the node values: `%s`'
                               % (name, OPNAME[name], norm(ret)), fi.file, ret.lineno))
-    r.floor = 12
+    r.floor = 9     # one return per method at least: 5 UTPM comparisons + 4 Function comparisons
     return r
 
 
@@ -532,7 +542,7 @@ def rule_kinds(ctx):
             key = '%s:%s' % (name, kind)
             evidence = []
             if kind == 'object':
-                if not any(isinstance(n, ast.Raise) for s in body for n in ast.walk(s)):
+                if not any(isinstance(n, ast.Raise) for s in body for n in ast.walk(s)) and not must_raise(m, fi.module, body):
                     evidence.append('the object-array branch does not raise')
             if kind in ('scalar', 'ndarray'):
                 for b in body:
@@ -935,8 +945,19 @@ def rule_dispatch(ctx):
         tests = [n for n in walk_no_nested(fi.node) if isinstance(n, ast.Call) and isinstance(n.func, ast.Name) and n.func.id == 'hasattr']
         if not tests or not all(isinstance(t.args[1], ast.Constant) and t.args[1].value == name for t in tests):
             probs.append('class dispatch does not test for the attribute %r' % name)
-        brk = [n for n in walk_no_nested(fi.node) if isinstance(n, ast.Break)]
-        if not brk:
+        # the scan over the arguments runs front to back and ends (break / return) at the first hit
+        scans = [n for n in walk_no_nested(fi.node) if isinstance(n, ast.For) and (seq_iteration(n) or ('', '', ''))[0] == 'args']
+        stops = False
+        for lp in scans:
+            if seq_iteration(lp)[1] != 'fwd':
+                probs.append('the argument scan does not run from the first argument to the last')
+            for n in ast.walk(lp):
+                if isinstance(n, ast.If) and any(isinstance(c_, ast.Call) and isinstance(c_.func, ast.Name) and c_.func.id == 'hasattr' for c_ in ast.walk(n.test)):
+                    if n.body and isinstance(n.body[-1], (ast.Break, ast.Return)):
+                        stops = True
+        if not scans:
+            probs.append('no scan over the arguments found')
+        elif not stops:
             probs.append('the argument scan does not stop at the first argument providing the method')
         if probs:
             for pm in probs:
@@ -1025,16 +1046,16 @@ def rule_index(ctx):
     if got == want:
         r.ok(construct='setitem', nontrivial=True, sample='__setitem__ prefixes: %s' % got)
         # roles: the slice(1,None) selection is set to 0, the 0 selection to rhs
+        rhs_name = s_.value_params()[1] if len(s_.value_params()) > 1 else 'rhs'
         for p in pre:
-            par = _parent_call(s_, p)
-            txt = norm(par) if par is not None else ''
+            val, txt = _stored_value(s_, p)
             if norm(p.left) == '(slice(1, None), slice(None))':
-                if par is None or not (len(par.args) == 2 and isinstance(par.args[1], ast.Constant) and par.args[1].value == 0):
+                if val is None or not (isinstance(val, ast.Constant) and val.value == 0 and val.value is not False):
                     r.bad(Finding('C13.index', _f(s_), 'clear', 'higher coefficients are not cleared with 0: `%s`' % txt, s_.file, p.lineno))
                 else:
                     r.ok(construct='setitem:clear', sample='`%s`' % txt)
             if norm(p.left) == '(0, slice(None))':
-                if par is None or not (len(par.args) == 2 and norm(par.args[1]) == 'rhs'):
+                if val is None or norm(val) != rhs_name:
                     r.bad(Finding('C13.index', _f(s_), 'const', 'the constant is not stored into coefficient 0: `%s`' % txt, s_.file, p.lineno))
                 else:
                     r.ok(construct='setitem:const', sample='`%s`' % txt)
@@ -1042,6 +1063,17 @@ def rule_index(ctx):
         r.bad(Finding('C13.index', _f(s_), 'prefix:%s' % got, '__setitem__ index prefixes are %s, expected %s' % (got, want), s_.file, s_.lineno))
     r.floor = 4
     return r
+
+
+def _stored_value(fi, index_node):
+    """value stored through the index expression: `X.__setitem__(<index>, v)` or `X[<index>] = v` -> (v, statement text)"""
+    for n in walk_no_nested(fi.node):
+        if isinstance(n, ast.Call) and isinstance(n.func, ast.Attribute) and n.func.attr == '__setitem__' \
+                and len(n.args) == 2 and n.args[0] is index_node:
+            return n.args[1], norm(n)
+        if isinstance(n, ast.Assign) and len(n.targets) == 1 and isinstance(n.targets[0], ast.Subscript) and n.targets[0].slice is index_node:
+            return n.value, norm(n)
+    return None, ''
 
 
 def _parent_call(fi, node):
@@ -1152,74 +1184,11 @@ def rule_map(ctx):
 
 
 # ----- symvec family: enumerate the index structure of the loop nests (N = 4)
-def _enumerate_pairs(fi, body, N=4):
-    """interpret `for v in range(a, b)` nests, `count = 0`, `count += 1`; record, for every statement
-    that mentions `count` in a subscript, the value of count and of every other integer-subscript tuple"""
-    events = []
-    env = {'N': N, 'M': N}
-
-    def ev(e):
-        if isinstance(e, ast.Constant):
-            return e.value
-        if isinstance(e, ast.Name):
-            return env[e.id]
-        if isinstance(e, ast.BinOp):
-            a, b = ev(e.left), ev(e.right)
-            if isinstance(e.op, ast.Add):
-                return a + b
-            if isinstance(e.op, ast.Sub):
-                return a - b
-        raise KeyError(norm(e))
-
-    def run(stmts):
-        for st in stmts:
-            if isinstance(st, ast.For) and isinstance(st.iter, ast.Call) and norm(st.iter.func) == 'range' and isinstance(st.target, ast.Name):
-                a = [ev(x) for x in st.iter.args]
-                rng = range(*a)
-                for v in rng:
-                    env[st.target.id] = v
-                    run(st.body)
-            elif isinstance(st, ast.Assign) and len(st.targets) == 1 and isinstance(st.targets[0], ast.Name) and isinstance(st.value, ast.Constant):
-                env[st.targets[0].id] = st.value.value
-            elif isinstance(st, ast.AugAssign) and isinstance(st.target, ast.Name) and st.target.id == 'count':
-                env['count'] = env['count'] + ev(st.value)
-            else:
-                subs = [n for n in ast.walk(st) if isinstance(n, ast.Subscript)]
-                cnt = None
-                pairs = []
-                for sb in subs:
-                    sl = sb.slice
-                    try:
-                        if isinstance(sl, ast.Name) and sl.id == 'count':
-                            cnt = env['count']
-                        elif isinstance(sl, ast.Tuple) and len(sl.elts) == 2:
-                            pairs.append((ev(sl.elts[0]), ev(sl.elts[1])))
-                    except KeyError:
-                        pass
-                if cnt is not None and pairs:
-                    events.append((cnt, tuple(sorted(set(pairs)))))
-    run(body)
-    return events
-
-
 def rule_sym(ctx):
     r = RuleResult('C13.sym', 'symvec / vecsym and their pullbacks enumerate the index pairs of the symmetric matrix in the same order with '
-                              'one vector position per pair (sibling agreement, decided by enumerating the loop-nest index structure for N=4)')
+                              'one vector position per pair (sibling agreement, decided by enumerating the loop-nest index structure for N=4; '
+                              'see verif/indexenum.py)')
     m = ctx.model
-    def branches(fi):
-        out = {}
-        for n in walk_no_nested(fi.node):
-            if isinstance(n, ast.If) and isinstance(n.test, ast.Compare) and norm(n.test.left) == 'UPLO':
-                cur = n
-                while True:
-                    key = norm(cur.test.comparators[0]).strip("'\"")
-                    out[key] = cur.body
-                    if len(cur.orelse) == 1 and isinstance(cur.orelse[0], ast.If) and isinstance(cur.orelse[0].test, ast.Compare) and norm(cur.orelse[0].test.left) == 'UPLO':
-                        cur = cur.orelse[0]
-                    else:
-                        break
-                break
-        return out
     try:
         sv = m.func('algopy.utils', 'symvec')
         vs = m.func('algopy.utils', 'vecsym')
@@ -1229,14 +1198,18 @@ def rule_sym(ctx):
     except AnalysisError as e:
         r.unknown(e.site, e.reason)
         return r
-    fam = {}
-    for key, body in branches(sv).items():
-        fam['symvec:' + key] = _enumerate_pairs(sv, body)
-    for key, body in branches(pbs).items():
-        fam['pb_symvec:' + key] = _enumerate_pairs(pbs, body)
-    fam['vecsym'] = _enumerate_pairs(vs, vs.node.body)
-    fam['UTPM.vecsym'] = _enumerate_pairs(uvs, uvs.node.body)
-    fam['pb_vecsym'] = _enumerate_pairs(pbv, pbv.node.body)
+    fam, unk = {}, {}
+    dims = {'N': 4, 'M': 4}
+    for u in ('F', 'L', 'U'):
+        for nm, fi in (('symvec', sv), ('pb_symvec', pbs)):
+            opt = [p for p in fi.params if p.upper() == 'UPLO']
+            if not opt:
+                unk['%s:%s' % (nm, u)] = ['no UPLO parameter']
+                continue
+            fam['%s:%s' % (nm, u)], unk['%s:%s' % (nm, u)] = enumerate_function(m, fi, dict(dims, **{opt[0]: u}))
+    for nm, fi in (('vecsym', vs), ('UTPM.vecsym', uvs), ('pb_vecsym', pbv)):
+        fam[nm], unk[nm] = enumerate_function(m, fi, dims)
+
     def canon(ev):
         # count -> unordered index pair
         d = {}
@@ -1246,8 +1219,8 @@ def rule_sym(ctx):
     full = [(a, b) for a in range(4) for b in range(a, 4)]
     want = {i: (p,) for i, p in enumerate(full)}
     for k in ('symvec:F', 'pb_symvec:F', 'vecsym', 'UTPM.vecsym', 'pb_vecsym'):
-        if k not in fam or not fam[k]:
-            r.unknown(k, 'loop nest not recognised')
+        if unk.get(k) or not fam.get(k):
+            r.unknown(k, 'loop nest not recognised (%s)' % (unk.get(k) or ['no packing statement found'])[0])
             continue
         c = canon(fam[k])
         if c == want:
@@ -1257,8 +1230,8 @@ def rule_sym(ctx):
                           % (k, [c.get(i) for i in range(6)], full[:6]), 'algopy/utils.py', 0))
     for u in ('L', 'U'):
         a, b = fam.get('symvec:' + u), fam.get('pb_symvec:' + u)
-        if not a or not b:
-            r.unknown('symvec:' + u, 'branch not recognised')
+        if not a or not b or unk.get('symvec:' + u) or unk.get('pb_symvec:' + u):
+            r.unknown('symvec:' + u, 'branch not recognised (%s)' % ((unk.get('symvec:' + u) or []) + (unk.get('pb_symvec:' + u) or []) + ['no packing statement found'])[0])
             continue
         # exact (ordered) pairs must agree between forward and pullback
         if [(c, p) for c, p in a] == [(c, p) for c, p in b]:
